@@ -209,7 +209,8 @@ Theorem C08_clusterlist_valid : forall c l b, construct_clusterlist l = Ok b -> 
 Proof. exact construct_clusterlist_valid. Qed.
 Print Assumptions C08_clusterlist_valid.
 Example C08_attr_nonvacuous :
-  construct_nexthop 167772161 = Ok [64; 3; 4; 10; 0; 0; 1] /  construct_community [CPair 65001 1; CWk 4294967041] = Ok [192; 8; 8; 253; 233; 0; 1; 255; 255; 255; 1].
+  construct_nexthop 167772161 = Ok [64; 3; 4; 10; 0; 0; 1] /\
+  construct_community [CPair 65001 1; CWk 4294967041] = Ok [192; 8; 8; 253; 233; 0; 1; 255; 255; 255; 1].
 Proof. vm_compute. auto. Qed.
 
 (** AS_PATH, full statement: false for the code as it is (the segment-type test of
@@ -229,5 +230,6 @@ Theorem C08_aspath_valid_partial : forall asn4 ap cr segs b,
 Proof. exact construct_aspath_valid. Qed.
 Print Assumptions C08_aspath_valid_partial.
 Example C08_aspath_nonvacuous :
-  construct_aspath false [(2, [65001; 65002])] = Ok [64; 2; 6; 2; 2; 253; 233; 253; 234] /  (exists b, construct_aspath true [(2, repeat 7 64)] = Ok (80 :: 2 :: 1 :: 2 :: b)).
+  construct_aspath false [(2, [65001; 65002])] = Ok [64; 2; 6; 2; 2; 253; 233; 253; 234] /\
+  (exists b, construct_aspath true [(2, repeat 7 64)] = Ok (80 :: 2 :: 1 :: 2 :: b)).
 Proof. vm_compute. split; [reflexivity | eexists; reflexivity]. Qed.
